@@ -10,7 +10,15 @@ NOTES = {
     "C02-m1": "no longer manifests after fix 9e94165 (its demonstration passes with the change applied): the folded application is left alone when evaluation fails",
     "C10-m2": "no longer manifests after fix 9e94165 (constant folding skips failing evaluations)",
     "C04-m2": "missed until MC_Serialise was added (serialiseData bytes with integers around 2^63 / 2^64 given by the bytes of their CBOR argument)",
-    "C18-m3": "NOT CAUGHT: needs a PlutusV1 validator, which the project API used by the check cannot produce (declared gap)",
+    "C18-m3": "missed until the histories were also run on the blueprint re-declared for Plutus V1 / V2",
+    "C20-m1": "missed until EVERY single-bit flip of small encodings was tried (the first run's report was a load-induced watchdog alarm, see DESIGN 11.6)",
+    "C20-m2": "missed until integer literals of the texts were rewritten with odd sign runs",
+    "C20-m3": "missed until hex fields of the blueprint were tried at lengths around the expected one",
+    "C16-m1": "missed until the end-to-end part (authored project through the real runner) was added",
+    "C16-m2": "missed until the end-to-end part was added (fuzzers whose evaluation fails)",
+    "C19-m2": "caught after script location `inputref` (script carried by a spent input's output) was added",
+    "C13-m3": "caught after `aiken fmt` in place (format_files) was added to the check",
+    "C13-m2": "caught after comments inside multi-line record constructors were generated",
     "C07-m2": "ported onto the repaired ListSwitch code (patch_original.diff is the agent's patch against the code before fix 8a035ae)",
     "C03-m1": "missed until the `closure` profile was added to MC_Cek",
     "C04-m3": "missed until builtin chains (group `chains`) and 64-bit boundary integers were added",
